@@ -74,8 +74,10 @@ def gen_run(rng, stop=None, **over):
 def sweep_ops(rng, exe, n_problems):
     """Exhaustive stop injection: for fixed runs, `stop()` during every event index."""
     ops = []
-    for _ in range(n_problems):
-        base = gen_run(rng, stop=False, maxiter=rng.choice([2, 3, 4]), nanat=0, oot=0, trace=0)
+    for i in range(n_problems):
+        # the first base run has many step-size backtracks in its first pass (stop() lands inside)
+        init = S.init_sweep_overrides(rng) if i == 0 else {}
+        base = gen_run(rng, stop=False, maxiter=rng.choice([2, 3, 4]), nanat=0, oot=0, trace=0, **init)
         out, rc, err = C.run_lines(exe, [base.line()])
         if rc != 0 or not out:
             continue
